@@ -1,7 +1,8 @@
 // dir: btree
 //
 // BOUNDED stand-in for the parts of property C10 that the deductive check does not reach (see DESIGN.md, C10):
-// node.insert at internal nodes (height > 0), the root split in BTree.Put, Traverse and the height bound.
+// the path of node.insert in which a split propagates through a full internal node, and the height bound
+// (Get, Size, IsEmpty and Traverse are compared as well, although they are proved).
 // It drives the real BTree against a map model:
 //   - exhaustively: every sequence of at most L operations drawn from Put(k, v) and Remove(k), k in 0..5
 //     (v is the position in the sequence, so overwrites are visible); L = 6 (quick) or 7 (thorough);
